@@ -13,8 +13,8 @@ One thing differs from mark-to-base: the anchor of a given (key, number) on one 
 both parse to key `top`, number 1 (`int("01") == 1`), both land in the same component list with the same mark class.  The
 theorem therefore concludes "through SOME plain anchor of the greatest matching key and that number"; under the additional
 hypothesis that this anchor is unique the attachment is exactly base anchor − mark anchor of the given pair
-(`C06_candidate_order_lig_unique_partial`).  Which of several same-key same-number anchors wins (the one with the greatest NAME,
-`_marksAsAST` sorts by name and the later `<anchor> mark @MC` of a component overwrites) is not proved.
+(`C06_candidate_order_lig_unique_partial`).  Which of several same-key same-number anchors wins (in the model's shaper the one
+with the greatest NAME: `_marksAsAST` sorts by name and the later `<anchor> mark @MC` of a component overrides) is not proved.
 -/
 namespace Ufo2ft.C06
 open List
